@@ -674,6 +674,97 @@ def _desugar_one(facts, d, norm, bb, kind, depth):
     return False
 
 
+def forward_refs(d):
+    """`r = &mut P; .. (*r).f = v ..` -> `P.f = v` (and reads alike) for reference locals with exactly one definition
+    whose target P is a stable place (derefs / fields / downcasts only). A helper that takes `&mut self.field` and
+    writes through it then reads — once spliced into its caller — like the direct field write it is, for every rule
+    (restore analysis, who-may-write, expression builder). While `r` is live the borrow checker guarantees that P is
+    not otherwise written, so the rewrite does not change which location is meant."""
+    ndefs = {}
+    defs = {}
+    for blk in d['blocks']:
+        for s in blk['st']:
+            if s['k'] == 'assign' and not s['lhs']['p']:
+                l = s['lhs']['l']
+                ndefs[l] = ndefs.get(l, 0) + 1
+                defs[l] = s['rv']
+        t = blk['t']
+        if t['k'] == 'call' and not t['dest']['p']:
+            ndefs[t['dest']['l']] = ndefs.get(t['dest']['l'], 0) + 1
+            defs[t['dest']['l']] = None
+    nargs = d.get('nargs', 0)
+
+    def stable(pl):
+        return all(p == '*' or (isinstance(p, dict) and ('n' in p or 'dc' in p or ('f' in p and 'idx' not in p)))
+                   for p in pl['p'])
+    target = {}
+
+    def resolve(l, depth=0):
+        if l in target:
+            return target[l]
+        if depth > 6 or ndefs.get(l, 0) != 1 or l <= nargs or defs.get(l) is None:
+            return None
+        rv = defs[l]
+        r = None
+        if rv['k'] == 'ref' and stable(rv['pl']):
+            base = rv['pl']
+            if base['p'] and base['p'][0] == '*':
+                inner = resolve(base['l'], depth + 1)
+                if inner is not None:
+                    r = {'l': inner['l'], 'p': list(inner['p']) + list(base['p'][1:])}
+            if r is None:
+                # a place rooted in a parameter / a plain local: stable when the root itself is never re-assigned
+                if base['l'] <= nargs or ndefs.get(base['l'], 0) <= 1:
+                    r = {'l': base['l'], 'p': list(base['p'])}
+        elif rv['k'] == 'use' and rv['op']['k'] in ('move', 'copy') and not rv['op']['pl']['p']:
+            r = resolve(rv['op']['pl']['l'], depth + 1)
+        elif rv['k'] == 'cast' and 'Pointer' in rv.get('ck', '') and isinstance(rv.get('op'), dict) and \
+                rv['op']['k'] in ('move', 'copy') and not rv['op']['pl']['p'] and 'Unsize' not in rv.get('ck', ''):
+            r = resolve(rv['op']['pl']['l'], depth + 1)
+        if r is not None:
+            target[l] = r
+        return r
+    n = 0
+
+    def rewrite(v):
+        nonlocal n
+        if isinstance(v, list):
+            for x in v:
+                rewrite(x)
+            return
+        if not isinstance(v, dict):
+            return
+        if 'l' in v and 'p' in v and isinstance(v['l'], int) and isinstance(v['p'], list):
+            if v['p'] and v['p'][0] == '*' and len(v['p']) > 1:
+                r = resolve(v['l'])
+                if r is not None and not (r['l'] == v['l']):
+                    v['p'] = copy.deepcopy(r['p']) + v['p'][1:]
+                    v['l'] = r['l']
+                    n += 1
+            return
+        for x in v.values():
+            rewrite(x)
+    for blk in d['blocks']:
+        for s in blk['st']:
+            if s['k'] == 'assign':
+                # whole-target writes `*r = v` as well as field writes
+                lhs = s['lhs']
+                if lhs['p'] and lhs['p'][0] == '*':
+                    r = resolve(lhs['l'])
+                    if r is not None and r['l'] != lhs['l']:
+                        lhs['p'] = copy.deepcopy(r['p']) + lhs['p'][1:]
+                        lhs['l'] = r['l']
+                        n += 1
+                rewrite(s['rv'])
+        t = blk['t']
+        for key in ('args', 'discr', 'pl'):
+            if key in t:
+                rewrite(t[key])
+    if n:
+        d['forwarded_refs'] = n
+    return d
+
+
 def prepare_body(facts, d, norm, depth=0):
     """all normalisations of one body dict: std combinators desugared, new private helpers inlined"""
     if d['kind'] not in ('Fn', 'AssocFn', 'Closure'):
@@ -683,4 +774,6 @@ def prepare_body(facts, d, norm, depth=0):
     d = inline_new_helpers(facts, d, norm, depth)
     if len(d.get('inlined', [])) != n0:
         d = desugar_combinators(facts, d, norm, depth)
+        # writes through `&mut field` parameters of spliced helpers become direct field writes
+        d = forward_refs(d)
     return d
